@@ -20,7 +20,7 @@ def main():
     if errors:
         run.violation("table translator failed closed: " + "; ".join(errors), dict(kind="translator", errors=errors), False)
         return run.finish()
-    ok, log = run.build(["Proofs/C14/Cache.vo", "Model/SigCases.vo"], clean=(run.tier == "thorough"))
+    ok, log = run.build(["Proofs/C14/Cache.vo", "Proofs/C14/Restrict.vo", "Model/SigCases.vo"], clean=(run.tier == "thorough"))
     proofs_ok = ok and run.theorems()
     if not ok: run.proof_log = log[-2500:]
     run.witnesses()
